@@ -32,6 +32,7 @@ def main(argv=None):
   ap.add_argument("--no-selftest", action="store_true")
   ap.add_argument("--no-evidence", action="store_true")
   ap.add_argument("--no-shrink", action="store_true", help="development: report violations without minimising them")
+  ap.add_argument("--first", action="store_true", help="development: stop exploring at the first violation")
   a = ap.parse_args(argv)
   pid = a.prop.upper()
   tier = a.tier if a.tier in TIERS else "quick"
@@ -48,7 +49,7 @@ def main(argv=None):
 
   results, stopped_early, wall = runner.explore(
       pid, vseed, tier, n_runs, jobs, budget, chunk=cfg.get("chunk", 8),
-      start=a.start)
+      start=a.start, stop_on_violation=a.first)
   cov, shapes, nontriv, inconc, herr, viol = runner.aggregate(results)
   n_ok = len(results) - len(herr)
 
